@@ -198,17 +198,39 @@ func (s *state) getBlock(name string) *parse.BlockNode {
 	return nil
 }
 
-func (s *state) getParentBlock(name string) *parse.BlockNode {
-	rootFound := false
+// Method getParentBlock returns the next definition of the given block further
+// up the inheritance chain, i.e. the one that cur overrides.
+func (s *state) getParentBlock(cur *parse.BlockNode) *parse.BlockNode {
+	curFound := false
 	for _, blocks := range s.blocks {
-		if block, ok := blocks[name]; ok {
-			if rootFound {
+		if block, ok := blocks[cur.Name]; ok {
+			if curFound {
 				return block
 			}
-			rootFound = true
+			curFound = block == cur
 		}
 	}
 	return nil
+}
+
+// Method renderBlock renders the body of the given block into a string. While
+// it runs the block is the current one (for parent()) and the template that
+// defines it is the current template, just like a block rendered in place.
+func (s *state) renderBlock(blk *parse.BlockNode) (string, error) {
+	pout, pcur, pname := s.out, s.current, s.name
+	defer func() {
+		s.out, s.current, s.name = pout, pcur, pname
+	}()
+	buf := &bytes.Buffer{}
+	s.out = buf
+	s.current = blk
+	if blk.Origin != "" {
+		s.name = blk.Origin
+	}
+	if err := s.walk(blk.Body); err != nil {
+		return "", err
+	}
+	return buf.String(), nil
 }
 
 // Method walk is the main entry-point into template execution.
@@ -795,15 +817,8 @@ func (s *state) evalFunction(exp *parse.FuncExpr) (Value, error) {
 			return nil, errors.New("not inside a block!")
 		}
 		name := s.current.Name
-		if blk := s.getParentBlock(name); blk != nil {
-			pout := s.out
-			buf := &bytes.Buffer{}
-			s.out = buf
-			if err := s.walk(blk.Body); err != nil {
-				return nil, err
-			}
-			s.out = pout
-			return buf.String(), nil
+		if blk := s.getParentBlock(s.current); blk != nil {
+			return s.renderBlock(blk)
 		}
 		return nil, errors.New("Unable to locate block \"" + name + "\"")
 	case "block":
@@ -817,15 +832,7 @@ func (s *state) evalFunction(exp *parse.FuncExpr) (Value, error) {
 		}
 		name := CoerceString(val)
 		if blk := s.getBlock(name); blk != nil {
-			pout := s.out
-			buf := &bytes.Buffer{}
-			s.out = buf
-			err = s.walk(blk.Body)
-			if err != nil {
-				return nil, err
-			}
-			s.out = pout
-			return buf.String(), nil
+			return s.renderBlock(blk)
 		}
 		return nil, errors.New("Unable to locate block \"" + name + "\"")
 	}
